@@ -68,6 +68,11 @@ impl Reservoir {
             .collect::<Vec<&mut [u8]>>();
         // Used when discarding chunks
         let end_of_lake = lake_chunks.len();
+        if end_of_lake == 0 {
+            // Nothing could be read from the source, there is nothing to sample
+            drop(lake_chunks);
+            return self.lake;
+        }
         let mut counter = end_of_lake / self.k as usize;
         // Algorithm L is considered better than algorithm R because it
         // determines how many inputs can be skipped, rather than
